@@ -10,6 +10,11 @@ import (
 	"golang.org/x/tools/go/ssa"
 )
 
+type ChanObj struct {
+	Name string
+	NilT Term
+}
+
 // VLazy is the content of a heap cell that holds a not-yet-materialised symbolic input object.
 type VLazy struct {
 	Typ  types.Type
@@ -87,6 +92,7 @@ type State struct {
 	lastCursor  Term
 	lastCursorDocs Term
 	entry       *State // state at the entry of the function under contract (for old() in loop invariants)
+	loopHead    map[string]*State
 	loopMark    map[string]int
 	loopVisited map[string]Term
 	loopKey     map[string]Term
@@ -369,7 +375,14 @@ func (e *Engine) symbolicOf(st *State, t types.Type, name string, depth int) Val
 	case *types.Slice:
 		return VUnknown{t, name}
 	case *types.Chan:
-		return VAbs{Kind: "chan", ID: e.nextID(), Data: name}
+		// a channel input may be nil: symbolic flag, deterministic identity per access path
+		id, ok := e.lazyCells["chan:"+name]
+		if !ok {
+			e.nextCell++
+			id = e.nextCell
+			e.lazyCells["chan:"+name] = id
+		}
+		return VAbs{Kind: "chan", ID: id, Data: &ChanObj{Name: name, NilT: st.declare("in."+sanitize(name)+".isnil", SBool)}}
 	}
 	return VUnknown{t, name}
 }
